@@ -69,6 +69,7 @@ PLANS = {
     "C14": {
         "quick": [("c14_h0_t3", BOTH + ("fixed:none",), session_check.WRITE_ACTIONS, None, None, None),
                   ("c14_h1_t3", BOTH + ("fixed:none", "fixed:crlf"), session_check.WRITE_ACTIONS, None, None, None),
+                  ("c14_h2_t3", ("delimited", "delimited:lf", "delimited:cr"), session_check.WRITE_ACTIONS, None, None, None),
                   # targets with a limited encoding: rows the CID accepts and the container refuses
                   ("c14_enc_h0", FILE_TARGETS, session_check.WRITE_ACTIONS, None, None, None),
                   ("c14_enc_h1", ("fixed@file",), session_check.WRITE_ACTIONS, None, None, None),
